@@ -1782,7 +1782,8 @@ class Transaction(object):
                 break
 
             # Add already known signatures on correct position
-            n_sigs_to_insert = len(self.inputs[tid].signatures)
+            sigs_unknown_key = []
+            n_sigs_replaced = 0
             for sig in self.inputs[tid].signatures:
                 if not sig.public_key:
                     # Signature came without its key (i.e. imported from a dictionary): find the key it belongs to
@@ -1791,19 +1792,22 @@ class Transaction(object):
                             sig.public_key = k
                             break
                 if not sig.public_key:
-                    break
+                    sigs_unknown_key.append(sig)
+                    continue
                 newsig_pos = pub_key_list.index(sig.public_key.public_byte)
                 if sig_domain[newsig_pos] == '':
                     sig_domain[newsig_pos] = sig
-                    n_sigs_to_insert -= 1
-            if n_sigs_to_insert:
-                for sig in self.inputs[tid].signatures:
-                    free_positions = [i for i, s in enumerate(sig_domain) if s == '']
-                    for pos in free_positions:
-                        sig_domain[pos] = sig
-                        n_sigs_to_insert -= 1
-                        break
-            if n_sigs_to_insert:
+                else:
+                    # There is a signature for this key already
+                    n_sigs_replaced += 1
+            # Signatures which cannot be linked to a key are put on the positions which are still free
+            for sig in sigs_unknown_key:
+                free_positions = [i for i, s in enumerate(sig_domain) if s == '']
+                if free_positions:
+                    sig_domain[free_positions[0]] = sig
+                else:
+                    n_sigs_replaced += 1
+            if n_sigs_replaced:
                 _logger.info("Some signatures are replaced with the signatures of the provided keys")
             self.inputs[tid].signatures = [s for s in sig_domain if s != '']
             self.inputs[tid].update_scripts(hash_type)
